@@ -1,0 +1,44 @@
+//go:build verif
+
+package lua
+
+// Verification hook for the error-containment check (C05): a read-only snapshot of the
+// bookkeeping a protected call has to put back. Nothing here changes behaviour of the library.
+
+import "reflect"
+
+// VerifDepth is what VerifDepthSnapshot reads.
+type VerifDepth struct {
+	Sp           int    // call frames of L
+	RegTop       int    // absolute top of L's registry
+	NCCalls      int    // calls from Go code into L that have not returned
+	ResumeDepth  int    // coroutines resumed inside one another (global)
+	OpenUpvalues int    // length of L's open-upvalue list
+	PanicMode    string // "traceback" (the default of a new state), "plain" (inside PCall) or "custom"
+	CurrentIsL   bool   // G.CurrentThread == L
+	HasFrame     bool   // L.currentFrame != nil
+}
+
+// VerifDepthSnapshot reads the counters of L.
+func VerifDepthSnapshot(L *LState) VerifDepth {
+	d := VerifDepth{
+		Sp:          L.stack.Sp(),
+		RegTop:      L.reg.Top(),
+		NCCalls:     L.nccalls,
+		ResumeDepth: L.G.resumeDepth,
+		CurrentIsL:  L.G.CurrentThread == L,
+		HasFrame:    L.currentFrame != nil,
+	}
+	for uv := L.uvcache; uv != nil; uv = uv.next {
+		d.OpenUpvalues++
+	}
+	switch reflect.ValueOf(L.Panic).Pointer() {
+	case reflect.ValueOf(panicWithTraceback).Pointer():
+		d.PanicMode = "traceback"
+	case reflect.ValueOf(panicWithoutTraceback).Pointer():
+		d.PanicMode = "plain"
+	default:
+		d.PanicMode = "custom"
+	}
+	return d
+}
